@@ -170,7 +170,7 @@ Demanded(pub) == IF pub THEN "accept" ELSE "reject"
 \* (so a const is shadowed, an alias is always a placeholder).
 SymState(kind, pub, ref, loaded) ==
   LET real == loaded /\ pub IN
-  CASE ref \in {"from", "item"} -> IF real /\ kind # "const" THEN "real" ELSE "placeholder"
+  CASE ref \in {"from", "item"} -> IF real THEN "real" ELSE "placeholder"     \* (fix 7014840: an imported pub const keeps its real symbol)
     [] ref \in {"from_alias", "item_alias", "qualified"} -> "placeholder"
     [] ref = "none" -> IF real THEN "real" ELSE "unknown"
 UseVerdict(use, st) ==
